@@ -119,7 +119,7 @@ extern int mpt_line_set(MPT_STRUCT(line) *li, const char *name, MPT_INTERFACE(co
 			*li = def_line;
 			return 0;
 		}
-		if ((type = mpt_color_typeid()) > 0
+		if ((type = mpt_line_typeid()) > 0
 		 && (len = src->_vptr->convert(src, type, li)) > 0) {
 			return 0;
 		}
